@@ -193,6 +193,23 @@ func runC01(c *core.Ctx) {
 			return
 		}
 		if checkpoints[i+1] {
+			if r.Bool() && math.Abs(v) > m.Min {
+				// a copy taken here goes its own way (values of both signs): nothing of it may reach this sketch
+				c.Guard("Copy", func() {
+					cp := s.P.Copy()
+					cp.Add(v)
+					// the opposite sign only when that side is still empty here (any single index fits an empty store)
+					other := s.P.GetNegativeValueStore()
+					if v < 0 {
+						other = s.P.GetPositiveValueStore()
+					}
+					if other.IsEmpty() {
+						cp.Add(-v)
+					}
+					cp.Add(0)
+				})
+				c.Count("checkpoint.copy_went_its_own_way", 1)
+			}
 			c.Logf("checkpoint: queries after %d additions", i+1)
 			if !checkQuantiles(i+1, true) {
 				return
